@@ -83,6 +83,8 @@ def _props_of(v):
         s = {'C04', 'C17'} if unw else {'C02', 'C17'}
         if r in ('HANDLE', 'HANDLE-DROP') and not unw:
             s |= {'C05'}
+        if r == 'HANDLE-DROP':
+            s |= {'C10'}     # what a drain does not yield it must destroy
         return s
     if r == 'INV':
         s = set()
